@@ -224,6 +224,54 @@ def sibling_eval(cfg):
 # --------------------------------------------------------------------------- explore
 
 
+# --------------------------------------------------------------------------- (f) real hash seeds over the seed corpus
+
+_CORPUS_JOBS = None
+
+
+def corpus_jobs():
+    """Every trigger seed of every codemod in canonical form, batched per codemod (singleton projects for the codemods that
+    read siblings): the per-file outcome must be the same under every PYTHONHASHSEED of the tier."""
+    global _CORPUS_JOBS
+    if _CORPUS_JOBS is None:
+        from .. import batch, progspace
+
+        progspace.register_structural()
+        seeds = [s for s in progspace.load_seeds() if s.kind == "trigger"]
+        _CORPUS_JOBS = batch.make_jobs(progspace.programs_for(seeds, 0), chunk=60, runs=1)
+    return _CORPUS_JOBS
+
+
+def corpus_hash_eval(cfg):
+    from .. import batch
+
+    idx, hs = cfg
+    spec = corpus_jobs()[idx]
+    obs = drive.run_cli(batch.job_to_drive(spec), hashseed=str(hs))
+    if obs.error:
+        raise core.HarnessError(obs.error)
+    out = {}
+    for r in batch._records(spec, obs):
+        out[r.pid] = core.sha12(json.dumps([obs.exits[0], (r.after[0] or b"").hex(), r.cs[0], r.failed[0], r.unfixed[0]], sort_keys=True, default=str))
+    return out
+
+
+def corpus_hash_alone(pid, seeds):
+    from .. import batch
+
+    spec = next(j for j in corpus_jobs() if any(i[0] == pid for i in j["items"]))
+    i = next(k for k, it in enumerate(spec["items"]) if it[0] == pid)
+    one = dict(spec, items=[spec["items"][i]], docs=[spec["docs"][i]] if spec["docs"] else None)
+    outs = {}
+    for hs in seeds:
+        obs = drive.run_cli(batch.job_to_drive(one), hashseed=str(hs))
+        if obs.error:
+            raise core.HarnessError(obs.error)
+        r = batch._records(one, obs)[0]
+        outs.setdefault(core.sha12(json.dumps([obs.exits[0], (r.after[0] or b"").hex(), r.cs[0], r.failed[0], r.unfixed[0]], sort_keys=True, default=str)), []).append(hs)
+    return outs
+
+
 def explore(tier, seed):
     violations = []
     cands = {}
@@ -314,6 +362,24 @@ def explore(tier, seed):
         for sig, detail in found:
             cands.setdefault(sig, ({"kind": "sibling", "codemod": cfg[0], "subsets": [list(s) for s in cfg[1]], "sig": sig}, detail))
 
+    # (f) real hash seeds over the seed corpus
+    hash_seeds = list(range(4 if tier == "quick" else 8))
+    jobs = corpus_jobs()
+    fcfgs = [(i, hs) for i in range(len(jobs)) for hs in hash_seeds]
+    fres = drive.pmap("cmverif.checks.c11:corpus_hash_eval", fcfgs)
+    per_pid = {}
+    for (i, hs), outs in zip(fcfgs, fres):
+        for pid, h in outs.items():
+            per_pid.setdefault(pid, {}).setdefault(h, []).append(hs)
+    corpus_programs = len(per_pid)
+    for pid, outs in sorted(per_pid.items()):
+        if len(outs) != 1:
+            spec = next(j for j in jobs if any(it[0] == pid for it in j["items"]))
+            cands[f"hashseed-corpus|{spec['codemod']}|{pid}|outcome-depends-on-hash-seed"] = (
+                {"kind": "hashseed-corpus", "pid": pid, "seeds": hash_seeds},
+                f"{pid}: {len(outs)} different outcomes (files / changesets) over PYTHONHASHSEED {hash_seeds}: seeds grouped {sorted(outs.values())}",
+            )
+
     known_open = {k["signature"] for k in core.load_known() if k["property"] == PROP and k["status"] == "open"}
     new = [(s, c) for s, c in sorted(cands.items()) if s not in known_open]
     repro = drive.confirm_replays("cmverif.checks.c11", [dict(c[0], sig=s) for s, c in new])
@@ -326,7 +392,7 @@ def explore(tier, seed):
     for sig, (rp, detail) in sorted(cands.items()):
         if sig in known_open:
             violations.append(Violation(PROP, sig, detail[:600], dict(rp, sig=sig), 1))
-    n_trans = total_exec + len(wcfgs) + len(hcfgs) + len(cli_cfgs) + len(rcfgs) + sib_runs
+    n_trans = total_exec + len(wcfgs) + len(hcfgs) + len(cli_cfgs) + len(rcfgs) + sib_runs + len(fcfgs)
     coverage = {
         "states": total_exec + len(hcfgs) + len(rcfgs) + len(wcfgs),
         "transitions": n_trans,
@@ -338,6 +404,7 @@ def explore(tier, seed):
         "worker_bound": {"pairs (w, n)": wcfgs, "max_in_flight_observed": [r[1] for r in wres]},
         "entry_point_orders": hash_cov,
         "real_hash_seed_runs": len(cli_cfgs),
+        "hash_seeds_over_corpus": {"PYTHONHASHSEED": hash_seeds, "programs": corpus_programs, "project_runs": len(fcfgs), "rule": "every canonical trigger seed of every codemod, one real console-script run per (project, hash seed); per-file outcome (bytes, changesets, failed, unfixed) must be the same for every seed"},
         "rglob_orders": rglob_cov,
         "sibling_independence": {"codemods": len(scfgs), "runs": sib_runs, "file_outcomes_changed_by_codemod": sib_changed, "subsets": "full set + singletons of 3 files" if tier == "quick" else "all non-empty subsets of 4 files"},
         "replay_divergence": divergence,
@@ -375,6 +442,9 @@ def replay(rp):
     if k == "hashseed-cli":
         outs = {hash_eval_cli((rp["selection"], hs))[0] for hs in range(4)}
         return (len(outs) == 1), f"{len(outs)} distinct outcomes over PYTHONHASHSEED 0..3"
+    if k == "hashseed-corpus":
+        outs = corpus_hash_alone(rp["pid"], rp["seeds"])
+        return (len(outs) == 1), f"{rp['pid']} alone: {len(outs)} distinct outcomes over PYTHONHASHSEED {rp['seeds']}: {sorted(outs.values())}"
     if k == "rglob":
         a = rglob_eval((rp["cfgs"][0][0], rp["cfgs"][0][1], rp["variant"]))
         b = rglob_eval((rp["cfgs"][1][0], rp["cfgs"][1][1], rp["variant"]))
